@@ -81,6 +81,7 @@ func isAuditInit(fn *ssa.Function) bool {
 }
 
 func runC06(c *an.Ctx) {
+	r7LockPairing(c, "R3")
 	r7FactoriesFresh(c, "R1")
 	shared := c06Shared(c)
 	var roots []*ssa.Function
